@@ -41,6 +41,11 @@ type ClientSession struct {
 	urlCtx        base.UrlContext
 	hc            IHandshakeClient
 
+	// connMu: conn is set by the connecting goroutine (connect) while Start's timeout, Dispose and the stat functions
+	// may already run in other goroutines. disposed tells the connecting goroutine that nobody is left to close a
+	// connection established from now on.
+	connMu                sync.Mutex
+	disposed              bool
 	conn                  connection.Connection
 	doResultChan          chan struct{}
 	errChan               chan error
@@ -223,15 +228,29 @@ func (s *ClientSession) UniqueKey() string {
 // ----- ISessionStat --------------------------------------------------------------------------------------------------
 
 func (s *ClientSession) GetStat() base.StatSession {
-	return s.sessionStat.GetStatWithConn(s.conn)
+	if conn := s.getConn(); conn != nil {
+		return s.sessionStat.GetStatWithConn(conn)
+	}
+	return s.sessionStat.GetStatWithConn(nil)
 }
 
 func (s *ClientSession) UpdateStat(intervalSec uint32) {
-	s.sessionStat.UpdateStatWitchConn(s.conn, intervalSec)
+	if conn := s.getConn(); conn != nil {
+		s.sessionStat.UpdateStatWitchConn(conn, intervalSec)
+	}
 }
 
 func (s *ClientSession) IsAlive() (readAlive, writeAlive bool) {
-	return s.sessionStat.IsAliveWitchConn(s.conn)
+	if conn := s.getConn(); conn != nil {
+		return s.sessionStat.IsAliveWitchConn(conn)
+	}
+	return s.sessionStat.IsAliveWitchConn(nil)
+}
+
+func (s *ClientSession) getConn() connection.Connection {
+	s.connMu.Lock()
+	defer s.connMu.Unlock()
+	return s.conn
 }
 
 // ---------------------------------------------------------------------------------------------------------------------
@@ -263,6 +282,8 @@ func (s *ClientSession) connect() {
 }
 
 func (s *ClientSession) doContext(ctx context.Context) error {
+	s.sessionStat.SetRemoteAddr(s.urlCtx.HostWithPort)
+
 	go s.connect()
 
 	select {
@@ -304,8 +325,6 @@ func (s *ClientSession) tcpConnect() error {
 	Log.Infof("[%s] > tcp connect.", s.UniqueKey())
 	var err error
 
-	s.sessionStat.SetRemoteAddr(s.urlCtx.HostWithPort)
-
 	var conn net.Conn
 	if s.urlCtx.Scheme == "rtmps" {
 		if conn, err = tls.Dial("tcp", s.urlCtx.HostWithPort, s.option.TlsConfig); err != nil {
@@ -317,6 +336,13 @@ func (s *ClientSession) tcpConnect() error {
 		}
 	}
 
+	s.connMu.Lock()
+	defer s.connMu.Unlock()
+	if s.disposed {
+		// Start has timed out (or the session was disposed) while the connection was being established
+		_ = conn.Close()
+		return base.ErrSessionNotStarted
+	}
 	s.conn = connection.New(conn, func(option *connection.Option) {
 		option.ReadBufSize = s.option.ReadBufSize
 		option.WriteChanFullBehavior = connection.WriteChanFullBehaviorBlock
@@ -694,11 +720,15 @@ func (s *ClientSession) dispose(err error) error {
 	var retErr error
 	s.disposeOnce.Do(func() {
 		Log.Infof("[%s] lifecycle dispose rtmp ClientSession. err=%+v", s.UniqueKey(), err)
-		if s.conn == nil {
+		s.connMu.Lock()
+		s.disposed = true
+		conn := s.conn
+		s.connMu.Unlock()
+		if conn == nil {
 			retErr = base.ErrSessionNotStarted
 			return
 		}
-		retErr = s.conn.Close()
+		retErr = conn.Close()
 	})
 	return retErr
 }
